@@ -4,7 +4,7 @@
     [holds]: the property itself, judged on what the implementation did, against
              dpkg's order (Dpkg.v) on strings that are valid by ParseSpec.v. *)
 From Coq Require Import String.
-From Verif Require Import Lib.Base Lib.Dec Gen.PyChars
+From Verif Require Import Lib.Base Lib.Dec Lib.PyStr Gen.PyChars
   Version.Parse Version.Compare Version.Dpkg Version.ParseSpec.
 Local Open Scope Z_scope.
 
@@ -17,6 +17,18 @@ Record pair_obs := mkP {
   p_hash_eq : bool;       (* hash(Version(a)) == hash(Version(b)) *)
 }.
 
+(** What the driver records for two objects after their histories. *)
+Record hist_obs := mkH {
+  h_aerrs : list (option err);   (* outcome of each assignment on the first object *)
+  h_berrs : list (option err);
+  h_astr : string;               (* str(a) afterwards *)
+  h_bstr : string;
+  h_ab : ops6;                   (* a<b a<=b a==b a!=b a>=b a>b  on the live objects *)
+  h_hash_eq : bool;              (* hash(a) == hash(b) *)
+  h_a_fresh : bool * bool;       (* a == Version(str(a)),  hash(a) == hash(Version(str(a))) *)
+  h_b_fresh : bool * bool;
+}.
+
 Inductive case :=
 | CPair (a b : string) (obs : result pair_obs)
 | CTriple (a b c : string) (ab bc ac : result Z)          (* version_compare on the three pairs *)
@@ -26,7 +38,11 @@ Inductive case :=
 | CPart (a b : string) (r : Z)                            (* NativeVersion._version_cmp_part(a, b) *)
 | CHashKey (s : string) (key : list (string * N))         (* BaseVersion._hash_key(s), when it exists *)
 (* spec against /usr/bin/dpkg --compare-versions (only [agree] is used) *)
-| CDpkg (a b : string) (rel : Z).
+| CDpkg (a b : string) (rel : Z)
+(* two objects, each made from a string, hashed once (so that anything memoised is), then taken through
+   a history of attribute assignments (accepted and rejected ones), then compared and hashed *)
+| CHist (a : string) (aops : list (string * option string))
+        (b : string) (bops : list (string * option string)) (obs : result hist_obs).
 
 Definition ops_eqb (x y : ops6) : bool :=
   Bool.eqb (o_lt x) (o_lt y) && Bool.eqb (o_le x) (o_le y) && Bool.eqb (o_eq x) (o_eq y)
@@ -48,6 +64,56 @@ Definition model_pair (a b : str) : result pair_obs :=
   do kb <- py_hash_key vb;
   Ok (mkP oab oba cab cba (vkey_eqb ka kb)).
 
+Definition opt_err_eqb (x y : option err) : bool := option_eqb err_eqb x y.
+Definition bb_eqb (x y : bool * bool) : bool := Bool.eqb (fst x) (fst y) && Bool.eqb (snd x) (snd y).
+
+Definition hist_obs_eqb (x y : hist_obs) : bool :=
+  list_eqb opt_err_eqb (h_aerrs x) (h_aerrs y) && list_eqb opt_err_eqb (h_berrs x) (h_berrs y)
+  && str_eqb (dec (h_astr x)) (dec (h_astr y)) && str_eqb (dec (h_bstr x)) (dec (h_bstr y))
+  && ops_eqb (h_ab x) (h_ab y) && Bool.eqb (h_hash_eq x) (h_hash_eq y)
+  && bb_eqb (h_a_fresh x) (h_a_fresh y) && bb_eqb (h_b_fresh x) (h_b_fresh y).
+
+Definition lit_ops (ops : list (string * option string)) : list (str * pyval) :=
+  map (fun p => (dec (fst p), match snd p with Some v => VStr (dec v) | None => VNone end)) ops.
+
+Definition final_state (st : vstate) (tr : list (vstate * option err)) : vstate :=
+  match last_opt tr with Some r => fst r | None => st end.
+
+(** the object against a fresh object made from its own string: (==, equal hash keys) *)
+Definition fresh_cmp (v : vstate) : result (bool * bool) :=
+  do w <- version_new (VStr (version_str v));
+  do o <- py_ops v w;
+  do kv <- py_hash_key v;
+  do kw <- py_hash_key w;
+  Ok (o_eq o, vkey_eqb kv kw).
+
+(** [model_hist] returns the strings as code-point lists; compared with [dec] of the literals *)
+Definition model_hist (a : str) (aops : list (str * pyval)) (b : str) (bops : list (str * pyval))
+  : result (list (option err) * list (option err) * str * str * ops6 * bool * (bool * bool) * (bool * bool)) :=
+  do va0 <- version_new (VStr a);
+  do vb0 <- version_new (VStr b);
+  let tra := run_assigns va0 aops in
+  let trb := run_assigns vb0 bops in
+  let va := final_state va0 tra in
+  let vb := final_state vb0 trb in
+  do o <- py_ops va vb;
+  do ka <- py_hash_key va;
+  do kb <- py_hash_key vb;
+  do fa <- fresh_cmp va;
+  do fb <- fresh_cmp vb;
+  Ok (map snd tra, map snd trb, version_str va, version_str vb, o, vkey_eqb ka kb, fa, fb).
+
+Definition agree_hist (a : string) aops (b : string) bops (obs : result hist_obs) : bool :=
+  match model_hist (dec a) (lit_ops aops) (dec b) (lit_ops bops), obs with
+  | Ok (ea, eb, sa, sb, o, he, fa, fb), Ok h =>
+      list_eqb opt_err_eqb ea (h_aerrs h) && list_eqb opt_err_eqb eb (h_berrs h)
+      && str_eqb sa (dec (h_astr h)) && str_eqb sb (dec (h_bstr h))
+      && ops_eqb o (h_ab h) && Bool.eqb he (h_hash_eq h)
+      && bb_eqb fa (h_a_fresh h) && bb_eqb fb (h_b_fresh h)
+  | Err e, Err f => err_eqb e f
+  | _, _ => false
+  end.
+
 Definition key_list_eqb (x : list key_elt) (y : list (string * N)) : bool :=
   list_eqb key_elt_eqb x (map (fun p => (dec (fst p), snd p)) y).
 
@@ -67,6 +133,7 @@ Definition agree (c : case) : bool :=
       | Some s => s =? rel
       | None => false
       end
+  | CHist a aops b bops obs => agree_hist a aops b bops obs
   end.
 
 (** (x, y, z) = signs of compare(a,b), compare(b,c), compare(a,c): transitivity of
@@ -105,6 +172,26 @@ Definition holds (c : case) : bool :=
         | _, _, _, _, _, _ => false
         end
       else true
+  | CHist a aops b bops obs =>
+      (* the objects are judged by the strings they display: when both are valid, the six operators order
+         them as dpkg orders those strings, equal ones hash equal, and each object equals — and hashes like —
+         a fresh object made from its own string *)
+      match obs with
+      | Ok h =>
+          let sa := dec (h_astr h) in
+          let sb := dec (h_bstr h) in
+          if both_valid sa sb then
+            match dpkg_compare sa sb with
+            | Some s =>
+                ops_eqb (h_ab h) (ops_of s)
+                && (if s =? 0 then h_hash_eq h else true)
+                && fst (h_a_fresh h) && snd (h_a_fresh h)
+                && fst (h_b_fresh h) && snd (h_b_fresh h)
+            | None => false
+            end
+          else true
+      | Err _ => if both_valid (dec a) (dec b) then false else true
+      end
   | _ => true
   end.
 
